@@ -11,7 +11,7 @@ func init() {
 	vRegister("HPagedSlice", HPagedSlice)
 }
 
-const hManyN = 64 + 36
+const hManyN = 64 + 36 + 20
 
 func HManyTables() {
 	w := NewWorld(NewConfig().WithCapacityIncrement(1 + vChoice("capinc", 2)).WithRelationCapacityIncrement(1))
@@ -21,6 +21,11 @@ func HManyTables() {
 		x.id[k] = hRegister(&w, k)
 	}
 	ids := x.id
+	// a filter registered before any table exists: its table list grows past one page (32), shrinks and grows again
+	maReg := All(ids[uA])
+	cfA := w.Cache().Register(&maReg)
+	marReg := All(ids[uA], ids[uR1]) // 8 zero-target tables + 36 tables of the parents: 44 entries
+	cfAR := w.Cache().Register(&marReg)
 	var ents [hManyN]Entity
 	var sets [hManyN]uint8
 	var tgts [hManyN]Entity
@@ -83,6 +88,26 @@ func HManyTables() {
 			seen++
 		}
 		vAssert(seen == cntA, "query visits exactly the matching entities")
+		qc := w.Query(&cfA)
+		vAssert(qc.Count() == cntA, "the registered filter selects like the plain filter (Count)")
+		seen = 0
+		for qc.Next() {
+			seen++
+		}
+		vAssert(seen == cntA, "the registered filter selects like the plain filter (iteration)")
+		cntAR := 0
+		for i := 0; i < n; i++ {
+			if alive[i] && sets[i]&(1<<uA) != 0 && sets[i]&(1<<uR1) != 0 {
+				cntAR++
+			}
+		}
+		qr := w.Query(&cfAR)
+		vAssert(qr.Count() == cntAR, "the registered relation-component filter selects like the plain filter (Count)")
+		seen = 0
+		for qr.Next() {
+			seen++
+		}
+		vAssert(seen == cntAR, "the registered relation-component filter selects like the plain filter (iteration)")
 	}
 	verify()
 	// relation filter for the parent of the 33rd relation table (second page)
@@ -98,7 +123,7 @@ func HManyTables() {
 		vAssert(q.Relation(ids[uR1]) == tgts[k], "relation filter selects only entities of its target")
 	}
 	vAssert(found, "relation filter finds a child stored in a table beyond the first page")
-	switch vChoice("op", 4) {
+	switch vChoice("op", 5) {
 	case 0: // remove any entity
 		i := vChoice("ent", n)
 		w.RemoveEntity(ents[i])
@@ -118,6 +143,47 @@ func HManyTables() {
 			if sets[i]&(1<<uR1) != 0 {
 				sets[i] &^= 1 << uR1
 				tgts[i] = Entity{}
+			}
+		}
+	case 4: // the table list of the registered filter shrinks below one page and grows past it again
+		for c := 0; c < 14; c++ { // 44 -> 30 entries: the list passes the page size on the way down
+			w.RemoveEntity(ents[first+c]) // child of parent c
+			alive[first+c] = false
+			w.RemoveEntity(ents[c]) // the parent dies: its empty table is retired
+			alive[c] = false
+		}
+		verify()
+		for c := 0; c < 10; c++ { // 30 -> 40 entries
+			parent := w.NewEntity()
+			ents[n], sets[n], alive[n] = parent, 0, true
+			n++
+			e := NewBuilder(&w, ids[uA], ids[uR1]).WithRelation(ids[uR1]).New(parent)
+			v := int64(vU64("val"))
+			(*hA)(w.Get(e, ids[uA])).X = v
+			ents[n], sets[n], vals[n], tgts[n], alive[n] = e, 1<<uA|1<<uR1, v, parent, true
+			n++
+		}
+		verify()
+		// every remaining old target dies, in one of three orders (tables moved by the earlier swap-removals included)
+		ord := vChoice("order", 3)
+		for j := 0; j < 22; j++ {
+			c := 35 - j // descending
+			switch ord {
+			case 1:
+				c = 14 + j // ascending
+			case 2: // from the middle outwards: 25, 24, 26, 23, ...
+				if j%2 == 0 {
+					c = 25 + j/2
+				} else {
+					c = 24 - j/2
+				}
+			}
+			w.RemoveEntity(ents[first+c])
+			alive[first+c] = false
+			w.RemoveEntity(ents[c])
+			alive[c] = false
+			if j == 1 || j == 5 {
+				verify()
 			}
 		}
 	default: // the parents of the second page die: their (non-empty) tables stay, children keep the dead handle
@@ -158,13 +224,67 @@ func HPagedSlice() {
 
 func init() { vRegister("HBig", HBig) }
 
+type hF0 struct{ V uint8 }
+type hF1 struct{ V uint8 }
+type hF2 struct{ V uint8 }
+type hF3 struct{ V uint8 }
+type hF4 struct{ V uint8 }
+type hF5 struct{ V uint8 }
+type hF6 struct{ V uint8 }
+type hF7 struct{ V uint8 }
+type hF8 struct{ V uint8 }
+type hF9 struct{ V uint8 }
+type hF10 struct{ V uint8 }
+type hF11 struct{ V uint8 }
+type hF12 struct{ V uint8 }
+type hF13 struct{ V uint8 }
+type hF14 struct{ V uint8 }
+type hF15 struct{ V uint8 }
+type hF16 struct{ V uint8 }
+type hF17 struct{ V uint8 }
+
+// hBigAssign: more than 16 components (one chunk of the id maps) given by value in one call.
+func hBigAssign() {
+	w := NewWorld()
+	hFill(&w, 7)
+	fid := [18]ID{ComponentID[hF0](&w), ComponentID[hF1](&w), ComponentID[hF2](&w), ComponentID[hF3](&w), ComponentID[hF4](&w), ComponentID[hF5](&w), ComponentID[hF6](&w), ComponentID[hF7](&w), ComponentID[hF8](&w), ComponentID[hF9](&w), ComponentID[hF10](&w), ComponentID[hF11](&w), ComponentID[hF12](&w), ComponentID[hF13](&w), ComponentID[hF14](&w), ComponentID[hF15](&w), ComponentID[hF16](&w), ComponentID[hF17](&w)}
+	all := [18]Component{{ID: fid[0], Comp: &hF0{V: 1}}, {ID: fid[1], Comp: &hF1{V: 2}}, {ID: fid[2], Comp: &hF2{V: 3}}, {ID: fid[3], Comp: &hF3{V: 4}}, {ID: fid[4], Comp: &hF4{V: 5}}, {ID: fid[5], Comp: &hF5{V: 6}}, {ID: fid[6], Comp: &hF6{V: 7}}, {ID: fid[7], Comp: &hF7{V: 8}}, {ID: fid[8], Comp: &hF8{V: 9}}, {ID: fid[9], Comp: &hF9{V: 10}}, {ID: fid[10], Comp: &hF10{V: 11}}, {ID: fid[11], Comp: &hF11{V: 12}}, {ID: fid[12], Comp: &hF12{V: 13}}, {ID: fid[13], Comp: &hF13{V: 14}}, {ID: fid[14], Comp: &hF14{V: 15}}, {ID: fid[15], Comp: &hF15{V: 16}}, {ID: fid[16], Comp: &hF16{V: 17}}, {ID: fid[17], Comp: &hF17{V: 18}}}
+	ea := w.NewEntity()
+	w.Assign(ea, all[:17]...)
+	eb := w.NewEntityWith(all[:18]...)
+	ma, mb := w.Mask(ea), w.Mask(eb)
+	vAssert(ma.TotalBitsSet() == 17 && mb.TotalBitsSet() == 18, "17 / 18 components given by value in one call")
+	vAssert((*hF0)(w.Get(ea, fid[0])).V == 1 && (*hF0)(w.Get(eb, fid[0])).V == 1, "component 0 of 18 assigned in one call holds its value")
+	vAssert((*hF1)(w.Get(ea, fid[1])).V == 2 && (*hF1)(w.Get(eb, fid[1])).V == 2, "component 1 of 18 assigned in one call holds its value")
+	vAssert((*hF2)(w.Get(ea, fid[2])).V == 3 && (*hF2)(w.Get(eb, fid[2])).V == 3, "component 2 of 18 assigned in one call holds its value")
+	vAssert((*hF3)(w.Get(ea, fid[3])).V == 4 && (*hF3)(w.Get(eb, fid[3])).V == 4, "component 3 of 18 assigned in one call holds its value")
+	vAssert((*hF4)(w.Get(ea, fid[4])).V == 5 && (*hF4)(w.Get(eb, fid[4])).V == 5, "component 4 of 18 assigned in one call holds its value")
+	vAssert((*hF5)(w.Get(ea, fid[5])).V == 6 && (*hF5)(w.Get(eb, fid[5])).V == 6, "component 5 of 18 assigned in one call holds its value")
+	vAssert((*hF6)(w.Get(ea, fid[6])).V == 7 && (*hF6)(w.Get(eb, fid[6])).V == 7, "component 6 of 18 assigned in one call holds its value")
+	vAssert((*hF7)(w.Get(ea, fid[7])).V == 8 && (*hF7)(w.Get(eb, fid[7])).V == 8, "component 7 of 18 assigned in one call holds its value")
+	vAssert((*hF8)(w.Get(ea, fid[8])).V == 9 && (*hF8)(w.Get(eb, fid[8])).V == 9, "component 8 of 18 assigned in one call holds its value")
+	vAssert((*hF9)(w.Get(ea, fid[9])).V == 10 && (*hF9)(w.Get(eb, fid[9])).V == 10, "component 9 of 18 assigned in one call holds its value")
+	vAssert((*hF10)(w.Get(ea, fid[10])).V == 11 && (*hF10)(w.Get(eb, fid[10])).V == 11, "component 10 of 18 assigned in one call holds its value")
+	vAssert((*hF11)(w.Get(ea, fid[11])).V == 12 && (*hF11)(w.Get(eb, fid[11])).V == 12, "component 11 of 18 assigned in one call holds its value")
+	vAssert((*hF12)(w.Get(ea, fid[12])).V == 13 && (*hF12)(w.Get(eb, fid[12])).V == 13, "component 12 of 18 assigned in one call holds its value")
+	vAssert((*hF13)(w.Get(ea, fid[13])).V == 14 && (*hF13)(w.Get(eb, fid[13])).V == 14, "component 13 of 18 assigned in one call holds its value")
+	vAssert((*hF14)(w.Get(ea, fid[14])).V == 15 && (*hF14)(w.Get(eb, fid[14])).V == 15, "component 14 of 18 assigned in one call holds its value")
+	vAssert((*hF15)(w.Get(ea, fid[15])).V == 16 && (*hF15)(w.Get(eb, fid[15])).V == 16, "component 15 of 18 assigned in one call holds its value")
+	vAssert((*hF16)(w.Get(ea, fid[16])).V == 17 && (*hF16)(w.Get(eb, fid[16])).V == 17, "component 16 of 18 assigned in one call holds its value")
+	ec := w.NewEntity(fid[17])
+	NewBuilderWith(&w, all[:17]...).Add(ec)
+	mc := w.Mask(ec)
+	vAssert(mc.TotalBitsSet() == 18 && (*hF16)(w.Get(ec, fid[16])).V == 17, "Builder.Add of 17 component values")
+}
+
+
 const hBigN = 300
 
 // HBig: counts beyond the natural word / byte thresholds of the implementation:
 // 300 entities in one table (ids and rows above 255, third and later growths,
 // batch creation larger than twice the capacity increment), an entity with id
 // above 255 as relation target, 20 components added and 18 removed in one call,
-// 70 registered filters (more than one 64-bit word of anything per filter).
+// 300 registered filters (more than one 64-bit word / one byte of filter ids), 17 / 18 components by value in one call.
 func HBig() {
 	capInc := [3]int{1, 7, 128}[vChoice("capinc", 3)]
 	w := NewWorld(NewConfig().WithCapacityIncrement(capInc).WithRelationCapacityIncrement(1 + vChoice("relinc", 2)))
@@ -232,9 +352,10 @@ func HBig() {
 	m = w.Mask(e)
 	vAssert(m.TotalBitsSet() == 3 && m.Get(idA) && m.Get(many[18]) && m.Get(many[19]) && (*hA)(w.Get(e, idA)).X == 0, "18 components removed in one call")
 	// 70 registrations of filters
-	var masks [70]Mask
-	var cfs [70]CachedFilter
-	for k := 0; k < 70; k++ {
+	const nReg = 300 // more than 256: filter ids beyond one byte
+	var masks [nReg]Mask
+	var cfs [nReg]CachedFilter
+	for k := 0; k < nReg; k++ {
 		if k%2 == 0 {
 			masks[k] = All(idA)
 		} else {
@@ -242,11 +363,11 @@ func HBig() {
 		}
 		cfs[k] = w.Cache().Register(&masks[k])
 	}
-	vAssert(w.Stats().CachedFilters == 70, "Stats().CachedFilters counts the registrations")
+	vAssert(w.Stats().CachedFilters == nReg, "Stats().CachedFilters counts the registrations")
 	w.Cache().Unregister(&cfs[0])
 	w.Cache().Unregister(&cfs[64])
 	fresh := w.NewEntity(idA, many[0]) // a new table reaches every registered filter that matches
-	for _, k := range [4]int{2, 62, 66, 68} {
+	for _, k := range [6]int{2, 62, 66, 68, 256, 298} {
 		qk := w.Query(&cfs[k])
 		vAssert(qk.Count() == hBigN+1, "a registered filter beyond the 64th registration selects like the plain filter")
 		qk.Close()
@@ -255,5 +376,6 @@ func HBig() {
 	vAssert(q65.Count() == 2, "the 66th registration (relation component) selects the two children")
 	q65.Close()
 	_ = fresh
+	hBigAssign()
 	vReach("end")
 }
